@@ -51,6 +51,9 @@ pub struct CaoLangAllocator {
     pub allocated: AtomicUsize,
     pub next_gc: AtomicUsize,
     pub limit: AtomicUsize,
+    /// verification hooks: forced collection schedule and allocation event log
+    #[cfg(feature = "verif-hooks")]
+    pub verif: UnsafeCell<crate::verif::AllocHooks>,
 }
 
 impl CaoLangAllocator {
@@ -60,6 +63,8 @@ impl CaoLangAllocator {
             allocated: AtomicUsize::new(0),
             next_gc: AtomicUsize::new((limit / 4).max(16)),
             limit: AtomicUsize::new(limit),
+            #[cfg(feature = "verif-hooks")]
+            verif: UnsafeCell::new(Default::default()),
         }
     }
 
@@ -69,8 +74,25 @@ impl CaoLangAllocator {
     pub unsafe fn alloc(&self, l: Layout) -> Result<NonNull<u8>, AllocError> {
         let s = l.size() + l.align();
         let allocated = s + self.allocated.fetch_add(s, Ordering::Relaxed);
+        #[cfg(feature = "verif-hooks")]
+        if allocated > self.limit.load(Ordering::Relaxed) {
+            (*self.verif.get()).on_fail(l.size(), s);
+        }
         if allocated > self.limit.load(Ordering::Relaxed) {
             return Err(AllocError::OutOfMemory);
+        }
+        #[cfg(feature = "verif-hooks")]
+        {
+            // a forced collection runs exactly where the natural one would: after the request
+            // has been charged and admitted, before the memory is handed out
+            if (*self.verif.get()).decide(&self.next_gc) {
+                (*self.verif.get()).collections += 1;
+                (*self.runtime).gc();
+            }
+        }
+        #[cfg(feature = "verif-hooks")]
+        if allocated > self.next_gc.load(Ordering::Relaxed) {
+            (*self.verif.get()).collections += 1;
         }
         if allocated > self.next_gc.load(Ordering::Relaxed) {
             self.next_gc.store(allocated * 2, Ordering::Relaxed);
@@ -83,6 +105,8 @@ impl CaoLangAllocator {
             );
         }
         let ptr = alloc(l);
+        #[cfg(feature = "verif-hooks")]
+        (*self.verif.get()).on_alloc(ptr as usize, l.size(), s);
         Ok(NonNull::new(ptr).unwrap())
     }
 
@@ -92,6 +116,8 @@ impl CaoLangAllocator {
     pub unsafe fn dealloc(&self, p: NonNull<u8>, l: Layout) {
         let s = l.size() + l.align();
         self.allocated.fetch_sub(s, Ordering::Relaxed);
+        #[cfg(feature = "verif-hooks")]
+        (*self.verif.get()).on_dealloc(p.as_ptr() as usize, l.size(), s);
         dealloc(p.as_ptr(), l);
     }
 }
